@@ -141,6 +141,9 @@ class Facts:
                 if cands:
                     break
         if not cands:
+            r = self.resolve(fid) if not getattr(self, "_in_resolve", False) else None
+            if r is not None:
+                return r
             if required:
                 raise MissingAnchor(fid)
             return None
@@ -151,7 +154,11 @@ class Facts:
         arguments) to the defining function's facts: exact id, then generic-stripped id, then a unique
         match on `Type::method` within the named crate."""
         from .flow import norm
-        fn = self.fn(name, required=False)
+        self._in_resolve = True
+        try:
+            fn = self.fn(name, required=False)
+        finally:
+            self._in_resolve = False
         if fn is not None:
             return fn
         n = norm(name)
